@@ -139,7 +139,7 @@ def record_pair(job: Tuple[dict, Any]) -> dict:
     dup_sc['dup'] = mode
     dup = rf.Recorder(dup_sc).run()
     sigs: Dict[str, int] = {}
-    mcs = [[e['t'], [[a[0], a[1]] for a in e.get('an', [])]] for e in dup['events']
+    mcs = [[e['t'], [[a[0], a[1], a[2] if len(a) > 2 else 0] for a in e.get('an', [])]] for e in dup['events']
            if e['ev'] == 'send' and e.get('mc') and e.get('resp') and not e.get('bad')]
     echo = [e['t'] for e in dup['events'] if e['ev'] == 'recv' and e.get('resp') and not e.get('bad') and any(q[2] for q in e.get('qs', []))]
     return {'id': '%s/%s' % (sc['id'], mode), 'ref': obs(ref, sigs), 'dup': obs(dup, sigs), 'mcs': mcs, 'echo': echo,
@@ -147,6 +147,7 @@ def record_pair(job: Tuple[dict, Any]) -> dict:
             'quprobes': sorted({d['t'] for d in dup['dups'] if d['qu'] and (d.get('legacy') or d.get('probe'))}),
             # (AAAA records heard on an IPv6 socket never equal the host's own: no recency for them, finding D22)
             'norecency': sorted({x['id'] for x in it.table if x['type'] == 28}) if sc.get('layout') == 'dual' else [],
+            'rrof': {str(x['id']): x['rr'] for x in it.table},
             'ndups': len(dup['dups']),
             'n_inj': ref.get('events') and sum(1 for e in ref['events'] if e['ev'] == 'recv' and e.get('inj')) or 0,
             'sc': sc['id'], 'mode': mode}
@@ -192,7 +193,18 @@ def run_pairs(ctx: Ctx, jobs: List[Tuple[dict, Any]]) -> None:
             rids = {a[0]: a[1] for m in here for a in m[1] if a[1] > 0}
             # (a quarter of the TTL the record has *now* -- an update may have shortened it; a second of margin: the cache may have missed
             # a sighting that was byte-identical to the one before it, finding D17)
-            recent = {r for r in rids if any(m[0] < d['t'] and d['t'] - m[0] < 250 * rids[r] - 1000 for m in p['mcs'] for a in m[1] if a[0] == r and a[1] > 0)}
+            # (... since the record was last withdrawn: a goodbye takes it out of the cache, and with it the memory of its sightings)
+            bye = {r: max([m[0] for m in p['mcs'] for a in m[1] if a[0] == r and a[1] == 0 and m[0] < d['t']] or [-1]) for r in rids}
+            recent = {r for r in rids if any(bye[r] < m[0] < d['t'] and d['t'] - m[0] < 250 * rids[r] - 1000
+                                             for m in p['mcs'] for a in m[1] if a[0] == r and a[1] > 0)}
+            # (... and since it was last flushed out of the host's own cache: a sibling of its rrset multicast alone with the
+            # cache-flush bit, more than a second after the record's own last sighting, makes the record expire a second later)
+            rrof = p.get('rrof', {})
+            for r in list(recent):
+                last = max(m[0] for m in p['mcs'] for a in m[1] if a[0] == r and a[1] > 0 and bye[r] < m[0] < d['t'])
+                if any(m[0] > last + 1000 and m[0] + 1000 < d['t'] and any(a[0] != r and a[2] and rrof.get(str(a[0])) == rrof.get(str(r)) for a in m[1])
+                       and not any(a[0] == r for a in m[1]) for m in p['mcs'] if m[0] < d['t']):
+                    recent.discard(r)
             # (the copy of a query from another port than 5353 is answered like the original: by multicast, whatever was multicast
             # within the last quarter of the TTL, and so is the QM part of a probe that mixes QU and QM questions -- D9 again; a probe
             # from port 5353 with QU questions only is subject to the quarter rule, C11)
